@@ -137,6 +137,11 @@ def run(ctx: Ctx, tier: str) -> Result:
             res.fail(Finding("C05.STR", pv.qname, c, pv.loc(c), "the recorded value / truncation mark are not (always) the result of truncate_string: value %s, mark %s - some "
                              "text is stored uncut and unmarked" % ([x[:60] for x in val], [x[:40] for x in trn])))
 
+    # ... and nothing changes the text once it was cut and marked: the table entry keeps the value it is given (an escape
+    # applied afterwards makes the stored text longer than the bound, with a mark computed for the shorter one)
+    from .common import dataclass_rule
+    dataclass_rule(ctx, res, "C05.STR", ["deep.api.tracepoint.eventsnapshot.Variable"], as_given=("value", "truncated"))
+
     # ---------------- SEQ
     pl = p.func(VP + ".process_list_breadth_first")
     loops = list(t.nodes_in(pl, ast.For))
